@@ -228,27 +228,32 @@ def _bias(ctx, p, r_bias):
     found = 0
     for b in p['methods']:
         fn = ctx.fn(b)
-        for bi, t in b.calls():
-            if t['func'].get('path') != 'rand::Rng::random_bool':
-                continue
+        reach = fn.reachable(0)
+        draws = [(bi, t) for bi, t in b.calls() if t['func'].get('path') == 'rand::Rng::random_bool' and bi in reach]
+        if not draws:
+            continue
+        goals = [bj for bj, t2 in b.calls() if t2['func'].get('path') == SAMPLE_GOAL and bj in reach]
+        unis = [bj for bj, t2 in b.calls() if t2['func'].get('path') == SAMPLE_UNIFORM and bj in reach]
+        edges = {bi: P.call_true_edges(fn, bi) for bi, _t in draws}
+        # every sampling site is selected by a bias draw (its own one when the iteration body exists in several copies)
+        orphan = []
+        for g in goals:
+            if not any(P.guarded(fn, g, edges[bi][0]) for bi, _t in draws):
+                orphan.append('sample_goal at %s is not on the true edge of random_bool' % fn.loc(g))
+        for u in unis:
+            if not any(P.guarded(fn, u, edges[bi][1]) for bi, _t in draws):
+                orphan.append('sample_uniform at %s is not on the false edge of random_bool' % fn.loc(u))
+        for k, (bi, t) in enumerate(draws):
             found += 1
             prob = fn.arg_terms(t, 1, bi)
             probs = []
             if not (prob and all(n[0] == 'field' and n[2] in pubs and all(m[0] == 'param' and m[1] == 1 for m in n[1]) for n in prob)):
                 probs.append('bias probability %s is not the planner\'s public field unmodified' % fmt_terms(prob)[:60])
-            te, fe = P.call_true_edges(fn, bi)
-            goals = [bj for bj, t2 in b.calls() if t2['func'].get('path') == SAMPLE_GOAL]
-            unis = [bj for bj, t2 in b.calls() if t2['func'].get('path') == SAMPLE_UNIFORM]
-            if not goals or not unis:
+            te, fe = edges[bi]
+            if not any(P.guarded(fn, g, te) for g in goals) or not any(P.guarded(fn, u, fe) for u in unis):
                 probs.append('goal or uniform sampling missing next to the bias draw')
-            for g in goals:
-                if not P.guarded(fn, g, te):
-                    probs.append('sample_goal at %s is not on the true edge of random_bool' % fn.loc(g))
-                if te and g in fn.reachable(0, removed=frozenset(te)):
-                    pass
-            for u in unis:
-                if not P.guarded(fn, u, fe):
-                    probs.append('sample_uniform at %s is not on the false edge of random_bool' % fn.loc(u))
+            if k == 0:
+                probs.extend(orphan)
             r_bias.inst('%s: bias draw at %s selects goal/uniform with probability %s' % (b.path, b.loc(bi), fmt_terms(prob)[:40]),
                         ok=not probs, site=b.loc(bi))
             for o, pr in enumerate(probs):
@@ -512,10 +517,41 @@ def _balance(ctx, p, r_bal):
                 bv = (sv if lb[0] == start_c else gv) + lb[1]
                 rel = 'lt' if sv < gv else ('eq' if sv == gv else 'gt')
                 (rel_true if fop(av, bv) else rel_false).add(rel)
-        # which tuple literal is built on each edge: component 0 = tree grown first
+        reach = fn.reachable(0)
+        loops_ = fn.loops()
+
+        def same_iteration_reach(x):
+            """blocks reachable from x without starting a new iteration of the innermost loop around x"""
+            inl = [L for L in loops_ if x in L['body']]
+            stop = frozenset([min(inl, key=lambda l: len(l['body']))['header']]) if inl else frozenset()
+            return fn.reachable(x, stop=stop)
+        # the extension helper calls (a planner helper that pushes and returns an Option)
+        helper_calls = [(bi, t) for bi, t in b.calls()
+                        if bi in reach and b.crate.body(t['func'].get('path', '')) in p['methods'] and
+                        any(P.node_vec_ty(p, b.local_ty((a.get('move') or a.get('copy'))['l']))
+                            for a in t['args'] if (a.get('move') or a.get('copy')) is not None and not (a.get('move') or a.get('copy'))['p'])
+                        and b.crate.body(t['func']['path']).j.get('ret_ty', '').startswith('std::option::Option<')]
+
+        def cont_names(bi, t):
+            for a in t['args']:
+                pl = a.get('move') or a.get('copy')
+                if pl is not None and not pl['p'] and P.node_vec_ty(p, b.local_ty(pl['l'])):
+                    ts = fn.place_terms(pl, (bi, fn.nstmts(bi)), mut_kills=False)
+                    return {n[2] for n in ts if n[0] == 'field'}
+            return set()
+        firsts, seconds = [], []
+        for (bi, t) in helper_calls:
+            before = [(bj, tj) for (bj, tj) in helper_calls if bj != bi and bi in same_iteration_reach(bj)]
+            (seconds if before else firsts).append((bi, t, before))
+        per_path = max([1 + len(bef) for (_bi, _t, bef) in seconds] + [1 if firsts else 0])
+        if not firsts or not seconds or per_path != 2:
+            probs.append('expected exactly two extension calls per iteration (grow, then connect), found %d on one path (unrecognised shape)' % per_path)
+        stop = frozenset([blk])
+        r_t, r_f = fn.reachable(t_t, stop=stop), fn.reachable(f_t, stop=stop)
+        # which tuple literal is built on each edge: component 0 = tree grown first (the merged, un-split shape)
         arms = {}
         for e in fn.events():
-            if e.kind == 'assign' and not e.path and e.data['k'] == 'assign' and e.data['rv']['k'] == 'agg' and \
+            if e.block in reach and e.kind == 'assign' and not e.path and e.data['k'] == 'assign' and e.data['rv']['k'] == 'agg' and \
                     e.data['rv']['agg'] == 'tuple' and len(e.data['rv']['fields']) >= 2:
                 rv = e.data['rv']
                 c0 = fn.op_terms(rv['fields'][0], (e.block, e.idx), mut_kills=False)
@@ -528,38 +564,49 @@ def _balance(ctx, p, r_bal):
                         ft = fn.op_terms(rv['fields'][2], (e.block, e.idx))
                         if len(ft) == 1 and next(iter(ft))[0] == 'const':
                             flag = next(iter(ft))[1]
-                    stop = frozenset([blk])
-                    on_true = e.block in fn.reachable(t_t, stop=stop) and e.block not in fn.reachable(f_t, stop=stop)
-                    on_false = e.block in fn.reachable(f_t, stop=stop) and e.block not in fn.reachable(t_t, stop=stop)
+                    on_true = e.block in r_t and e.block not in r_f
+                    on_false = e.block in r_f and e.block not in r_t
                     arms[e.block] = (names0, names1, flag, 'true' if on_true else ('false' if on_false else '?'))
-        if len(arms) < 2:
-            probs.append('the two (grow, connect) tree assignments are not tuple literals on the two edges of the size test (unrecognised shape)')
-        for blk2, (n0, n1, flag, edge) in arms.items():
-            rel = rel_true if edge == 'true' else (rel_false if edge == 'false' else None)
-            if rel is None:
-                probs.append('tree assignment at %s is not on one edge of the size comparison' % fn.loc(blk2))
-                continue
-            grows_start = n0 == {start_c}
-            if grows_start and 'gt' in rel:
-                probs.append('the start tree is grown first although it is the larger one')
-            if not grows_start and 'lt' in rel:
-                probs.append('the goal tree is grown first although it is the larger one')
-            if n0 == n1:
-                probs.append('the same tree is both grown and connected')
-            if flag is not None and (flag == 'true') != grows_start:
-                probs.append('the "growing start tree" flag disagrees with the tree actually grown')
-        # the second extension targets the node just added by the first; success requires Reached
-        helper_calls = [(bi, t) for bi, t in b.calls()
-                        if b.crate.body(t['func'].get('path', '')) in p['methods'] and
-                        any(P.node_vec_ty(p, b.local_ty((a.get('move') or a.get('copy'))['l']))
-                            for a in t['args'] if (a.get('move') or a.get('copy')) is not None and not (a.get('move') or a.get('copy'))['p'])
-                        and b.crate.body(t['func']['path']).j.get('ret_ty', '').startswith('std::option::Option<')]
-        if len(helper_calls) != 2:
-            probs.append('expected exactly two extension calls per iteration, found %d (unrecognised shape)' % len(helper_calls))
+        merged = any(len(cont_names(bi, t)) != 1 for (bi, t, _b) in firsts)
+        if merged:
+            if len(arms) < 2:
+                probs.append('the two (grow, connect) tree assignments are not tuple literals on the two edges of the size test (unrecognised shape)')
+            for blk2, (n0, n1, flag, edge) in arms.items():
+                rel = rel_true if edge == 'true' else (rel_false if edge == 'false' else None)
+                if rel is None:
+                    probs.append('tree assignment at %s is not on one edge of the size comparison' % fn.loc(blk2))
+                    continue
+                grows_start = n0 == {start_c}
+                if grows_start and 'gt' in rel:
+                    probs.append('the start tree is grown first although it is the larger one')
+                if not grows_start and 'lt' in rel:
+                    probs.append('the goal tree is grown first although it is the larger one')
+                if n0 == n1:
+                    probs.append('the same tree is both grown and connected')
+                if flag is not None and (flag == 'true') != grows_start:
+                    probs.append('the "growing start tree" flag disagrees with the tree actually grown')
         else:
-            (b1, t1), (b2, t2) = sorted(helper_calls, key=lambda x: 0 if x[0] in fn.can_reach(helper_calls[1][0]) and x[0] != helper_calls[1][0] else 1)
-            if b2 not in fn.reachable(b1):
-                (b1, t1), (b2, t2) = (b2, t2), (b1, t1)
+            # every copy of the iteration grows exactly one known tree: relate it to the edge of the size test it lives on
+            for (bi, t, _b) in firsts:
+                n0 = cont_names(bi, t)
+                rel = rel_true if (bi in r_t and bi not in r_f) else (rel_false if (bi in r_f and bi not in r_t) else None)
+                if rel is None:
+                    probs.append('the extension at %s is not confined to one edge of the size comparison' % fn.loc(bi))
+                    continue
+                grows_start = n0 == {start_c}
+                if grows_start and 'gt' in rel:
+                    probs.append('the start tree is grown first although it is the larger one')
+                if not grows_start and 'lt' in rel:
+                    probs.append('the goal tree is grown first although it is the larger one')
+            for (bi, t, bef) in seconds:
+                n1 = cont_names(bi, t)
+                for (bj, tj) in bef:
+                    if cont_names(bj, tj) & n1:
+                        probs.append('the same tree is both grown and connected')
+        # the second extension targets the node just added by the first; success requires Reached
+        second_sites = set()
+        for (b2, t2, bef) in seconds:
+            second_sites.add((fn.path, b2))
             tgt2 = None
             for j, a in enumerate(t2['args']):
                 pl = a.get('move') or a.get('copy')
@@ -567,30 +614,44 @@ def _balance(ctx, p, r_bal):
                     tgt2 = strip_clone(fn.arg_terms(t2, j, b2))
             okt = False
             if tgt2:
+                okt = True
                 for n in tgt2:
-                    # tree_a[ idx from first extend ].state
+                    # tree_a[ idx from the first extend of this iteration ].state
+                    hit = False
                     if n[0] == 'field' and len(n[1]) == 1:
                         ixn = next(iter(n[1]))
-                        if ixn[0] == 'index' and any(m[0] == 'call' and m[3] == (fn.path, b1) for m in walk(ixn[2])):
-                            okt = True
+                        if ixn[0] == 'index' and any(m[0] == 'call' and any(m[3] == (fn.path, b1) for (b1, _t1) in bef) for m in walk(ixn[2])):
+                            hit = True
+                    okt = okt and hit
             if not okt:
                 probs.append('the second extension does not aim at the node just added by the first (target %s)' % fmt_terms(tgt2 or frozenset())[:80])
+        if seconds:
             # success (the Ok built from two reconstructed branches) requires connect_result == Reached
-            joined = [bi for bi, t in b.calls() if t['func'].get('path', '').endswith('Extend::extend')]
+            joined = [bi for bi, t in b.calls() if bi in reach and t['func'].get('path', '').endswith('Extend::extend')]
             reached_edges = set()
             for sb in range(fn.nb):
                 si = fn.switch_info(sb)
-                if si is None:
+                if si is None or sb not in reach:
                     continue
                 terms, tmap, other = si
-                if len(terms) == 1 and set(tmap.keys()) == {'0'}:
-                    n = next(iter(terms))
-                    if n[0] == 'call' and n[1] == 'std::cmp::PartialEq::eq' and any(
-                            m[0] == 'call' and m[3] == (fn.path, b2) for m in walk(n[2][0])):
-                        # compared with the Reached variant
-                        rhs_ok = any('Reached' in str(m) or m[0] == 'const' for m in walk(n[2][1]))
-                        if rhs_ok:
-                            reached_edges.add((sb, other))
+                if len(terms) != 1:
+                    continue
+                n = next(iter(terms))
+                from_second = lambda ts: any(m[0] == 'call' and m[3] in second_sites for m in walk(ts))
+                if set(tmap.keys()) == {'0'} and n[0] == 'call' and n[1] == 'std::cmp::PartialEq::eq' and from_second(n[2][0]):
+                    # compared with the Reached variant
+                    rhs_ok = any('Reached' in str(m) or m[0] == 'const' for m in walk(n[2][1]))
+                    if rhs_ok:
+                        reached_edges.add((sb, other))
+                elif n[0] == 'discr' and from_second(n[1]) and all(x[0] == 'field' for x in n[1]):
+                    # `match extend(..) { Some((ExtendResult::Reached, i)) => .. }`: the edge of the Reached variant
+                    for ename, adt in b.crate.adts.items():
+                        names = [v['name'] for v in adt['variants']]
+                        if adt.get('is_enum') and 'Reached' in names and ename.startswith(p['module']):
+                            v = str(names.index('Reached'))
+                            if v in tmap and sum(1 for x in tmap.values() if x == tmap[v]) == 1 and tmap[v] != other:
+                                # (the discriminant read is a component of the Some payload - the result kind - not the Option)
+                                reached_edges.add((sb, tmap[v]))
             for jb in joined:
                 if not P.guarded(fn, jb, reached_edges):
                     probs.append('the two branches are joined at %s without the connection having reached the new node' % fn.loc(jb))
